@@ -7,6 +7,7 @@ from .runner import Spec, register, known
 from .workload import Gen
 
 STUBS = [
+    "TraphIteratorState.should_yield -> every n-th iteration (n in 1,2,7) in 4 of 7 sequential runs (yield-cadence fuzzing); stock otherwise",
     "builtin open -> SimFile on SimDisk (write-through, global ordered write log)",
     "os.makedirs / os.path.isfile / isdir / join -> SimDisk directory table",
 ]
